@@ -5,7 +5,7 @@ from report import Rule
 from mirlib import callee_name, op_const, op_place, backward_slice
 import mustlib as M
 from astlib import find_all, find_first, show, show_pat, quotes_in, tok_text, method_chain, callee_path
-from rules.common import ftrav, flat, flatp, has, same
+from rules.common import ftrav, flat, flatp, has, same, xquotes
 
 EXPLANATION = (
     "Static structural analysis (MIR data-flow facts, syntax facts, generated-code templates); nothing executed. Decided "
@@ -338,7 +338,7 @@ def r5_templates(ctx):
     if fn is None:
         r.missing("macro Literal::to_token_stream")
     else:
-        qs = [flat(tok_text(q["tokens"])) for q in quotes_in(fn.body)]
+        qs = [flat(tok_text(q["tokens"])) for q in xquotes(fn.body)]
         want1 = "l_i18n_crate::__private::index_translations::<#strings_count,#index>(#translations_key)"
         if any(q == want1 for q in qs) and any(q == "{constS:&str=%s;S}" % want1 for q in qs):
             r.inst("Literal::to_token_stream", "index_translations::<strings_count, index>(table) (in a const item when baked)")
@@ -350,7 +350,7 @@ def r5_templates(ctx):
     fn = ast.fn(ML, "create_locale_type_inner")
     if fn is not None:
         t = flatp(show(fn.body))
-        qs = [flat(tok_text(q["tokens"])) for q in quotes_in(fn.body)]
+        qs = [flat(tok_text(q["tokens"])) for q in xquotes(fn.body)]
         ok = has(t, "letstrings_count=locale.top_locale_string_count;letstrings=&*locale.strings;") and "constSTRINGS:&[&str;#strings_count]=&[#(#strings,)*];" in qs
         if ok:
             r.inst("string_holders", "const STRINGS: &[&str; locale.top_locale_string_count] = &[all of locale.strings]")
@@ -366,7 +366,7 @@ def r5_templates(ctx):
         if fn is None:
             continue
         t = flatp(show(fn.body))
-        qs = [flat(tok_text(q["tokens"])) for q in quotes_in(fn.body)]
+        qs = [flat(tok_text(q["tokens"])) for q in xquotes(fn.body)]
         ok = has(t, "letstrings_count=locale.top_locale_string_count;") and has(t, "letstring_accessor=strings_accessor_method_namelocale;") and \
             any("#translations_key:&[&str;#strings_count]=super::#locale_type_ident::#string_accessor()" in q for q in qs)
         if ok:
